@@ -9,7 +9,10 @@ CONSTANTS Tier
 
 Vocab == [ atoms |-> [ none |-> "" ] ]
 
-Paths   == {"callback", "refresh", "bearer"}
+\* xbearer / xbearer0: a bearer token of an EXTRA issuer (--extra-jwt-issuers), in a configuration that lists two of them: one that
+\* publishes no discovery document (xbearer0, key set at <issuer>/.well-known/jwks.json) before one that does (xbearer).  "otherkey"
+\* on these paths is the key of the OTHER extra issuer.
+Paths   == {"callback", "refresh", "bearer", "xbearer", "xbearer0"}
 \* histories: the SAME token presented twice, valid the first time and past its expiry the second (bearer header / the ID token of a
 \* session that can only be re-validated because the provider refuses the refresh)
 TwicePaths == {"bearer_twice", "validate_twice"}
@@ -40,7 +43,7 @@ Req_Acceptable(t, cfg, path) ==
     /\ (Verified(t) \/ cfg.allowUnverified)
 \* which source each session field must come from ("tok" / "prof" / "none"); the bearer path has no access token and therefore no profile
 Src(t, path, field) ==
-    LET prof == IF path = "bearer" THEN "none" ELSE "prof" IN
+    LET prof == IF path \in {"bearer", "xbearer", "xbearer0"} THEN "none" ELSE "prof" IN
     CASE field = "email"  -> IF t.claims = "email_prof" THEN prof ELSE "tok"
       [] field = "groups" -> IF t.claims \in {"groups_prof", "ev_split"} THEN prof ELSE IF t.claims = "no_groups" THEN "none" ELSE "tok"
       [] field = "pu"     -> IF t.claims = "groups_prof" THEN prof ELSE "tok"
@@ -52,7 +55,10 @@ Req_IdentityCustom     == [user |-> "tok", email |-> "custom", groups |-> "custo
 Differs(t) == Cardinality({f \in DOMAIN Good : t[f] # Good[f]})
 InScope(c) ==
     \* the bearer path cannot take the e-mail from a profile: a token without e-mail falls back to the subject there (documented)
-    /\ (c.path = "bearer" => c.tok.claims \notin {"email_prof", "ev_split"})
+    /\ (c.path \in {"bearer", "xbearer", "xbearer0"} => c.tok.claims \notin {"email_prof", "ev_split"})
+    /\ (c.path \in {"xbearer", "xbearer0"} => /\ ~c.cfg.extraAud /\ c.cfg.audClaim = "aud" /\ ~c.cfg.allowUnverified /\ c.cfg.keys = "discovery"
+                                               /\ c.cfg.claimMap = "default" /\ c.tok.claims = "tok" /\ Differs(c.tok) <= 1
+                                               /\ c.tok.aud \in {"client", "other", "absent"})
     /\ (c.tok.claims = "ev_split" => c.tok.ev = "false")
     /\ (c.cfg.audClaim = "azp" => ~c.cfg.extraAud)
     /\ (c.cfg.claimMap = "custom" => /\ c.tok.claims = "tok" /\ c.tok.ev = "true" /\ ~c.cfg.extraAud /\ c.cfg.audClaim = "aud" /\ ~c.cfg.allowUnverified
